@@ -133,6 +133,12 @@ void carquet_rle_decoder_init(
     dec->bit_width = bit_width;
     dec->value_mask = bit_width >= 32 ? ~0U : (1U << bit_width) - 1;
     dec->status = CARQUET_OK;
+    if (bit_width < 0 || bit_width > 32) {
+        /* The width byte comes from the page; values are at most 32 bits */
+        dec->bit_width = 0;
+        dec->value_mask = 0;
+        dec->status = CARQUET_ERROR_INVALID_RLE;
+    }
 }
 
 bool carquet_rle_decoder_has_next(const carquet_rle_decoder_t* dec) {
@@ -479,6 +485,9 @@ int64_t carquet_rle_decode_levels(
 
     if (max_values <= 0 || input_size == 0) {
         return 0;
+    }
+    if (bit_width < 0 || bit_width > 32) {
+        return -1;  /* the width byte comes from the page */
     }
 
     /* Fast path: decode directly without per-value function calls */
